@@ -165,6 +165,10 @@ pub fn plans(thorough: bool) -> Vec<ledger::Plan> {
         p.sc.extra_step = Some(Box::new(check_events));
         if p.sc.name.contains("acct") {
             p.depth = p.depth.saturating_sub(1).max(3);
+        } else if thorough && !p.sc.name.ends_with("+deep") {
+            // one level less than the C03 thorough search, so that both builds complete it and the
+            // graphs can be compared
+            p.depth = p.depth.saturating_sub(1).max(3);
         }
         p.required = vec!["LiquidStake:ok", "SubmitBatch:ok"];
         out.push(p);
